@@ -753,7 +753,11 @@ func genRemerges(tier string, emit func(enum.MergeCase)) {
 				}
 				pre := mk([]enum.Expr{enum.L(x, false), enum.L(y, true)}, [][]int{nil, nil})
 				emit(enum.MergeCase{Menu: "text", Mode: 1026, Pre: pre, E: *mk([]enum.Expr{enum.L(x, false), enum.L(z, false)}, [][]int{nil, nil})})
-				emit(enum.MergeCase{Menu: "text", Mode: 1, Pre: pre, E: *mk([]enum.Expr{enum.L(z, true), enum.L(x, false)}, [][]int{nil, {0}})})
+				d := []int{0}
+				if len(enum.Menu("text")[x].Docs) == 0 {
+					d = []int{} // the empty batch has no document to drop
+				}
+				emit(enum.MergeCase{Menu: "text", Mode: 1, Pre: pre, E: *mk([]enum.Expr{enum.L(z, true), enum.L(x, false)}, [][]int{nil, d})})
 			}
 		}
 	}
